@@ -38,6 +38,37 @@ def depth0_bound(ctx, crate, clause="depth0-bound-siblings"):
                at=b.span if b else None, kind="N", sample={"depth0_values": vals, "expected": want})
 
 
+def profile_agreement(ctx, clause="both-profiles"):
+    """N: with debug assertions ON, no path of the public bound helpers may carry assertions that
+    are jointly satisfiable only for a single value of an input-derived quantity (then every
+    ordinary input of that path panics in debug builds instead of returning a bound)."""
+    from rules.common import float_interval
+    crate = ctx.crate("dbg")
+    for fn in ("largest_center_to_vertex_distance", "largest_center_to_vertex_distance_with_radius", "largest_center_to_vertex_distances_with_radius"):
+        b = ctx.anchor(crate, fn, clause)
+        if b is None: continue
+        rets = []
+        e = Engine(crate, opaque={"get_or_create"})
+        def eh(body, s, t, st, fk, fn=fn):
+            # every propagated edge of the function and of the helpers analysed in place
+            rets.append(("%s:bb%s" % (body.path, s), st.facts))
+        e.edge_hook = eh
+        e.run(fn); ctx.functions |= e.visited_fns
+        bad = []
+        for s, facts in rets:
+            terms = set()
+            for op, a, c, pos in cmp_facts(facts):
+                if pos and cval(c) is not None and a[0] != 'c': terms.add(a)
+                if pos and cval(a) is not None and c[0] != 'c': terms.add(c)
+            for t in terms:
+                lo, los, hi, his = float_interval(facts, t)
+                if lo > hi or (lo == hi and lo not in (0.0,)) or (lo == hi and (los or his)):
+                    if not any(b0[1:] == (show(t)[:60], lo, hi) for b0 in bad): bad.append((s, show(t)[:60], lo, hi))
+        ctx.report(clause, fn + ":no-degenerate-debug-domain", bool(rets) and not bad,
+                   "%d CFG edges (helpers analysed in place); on none do the debug assertions pin an input-derived value to a single point" % len(rets) if not bad else
+                   "after %s the debug assertions require %s in [%r, %r]: every other input taking this path panics in a debug build" % bad[0], at=b.span, kind="N")
+
+
 def run(ctx):
     crate = ctx.crate("rel")
     s = crate.statics.get(TABLE)
@@ -95,4 +126,5 @@ def run(ctx):
         ok2 = any(op == "lt" and a == param(pname) and cval(c) == T[0] and pos for op, a, c, pos in entry)
         ctx.report("refusal", FN + ":asserts-r<T[0]", ok2, "every normal return of best_starting_depth has r < T[0] = %r as a succeeded comparison (NaN and larger radii panic)" % T[0], at=b.span)
     depth0_bound(ctx, crate)
+    profile_agreement(ctx)
     ctx.not_decided("that the tabulated limits and the linear/parabolic envelopes of ConstantsC2V are upper bounds of real cell sizes (spherical trigonometry); largest_center_to_vertex_distance*")
